@@ -495,6 +495,42 @@ func c13Flavours(c *ev.Ctx) {
 		}
 	}
 	c.Set("typed_flavour_cases", len(cases))
+	// "deep-equal" in Go's sense: an input tree whose empty slices/maps are non-nil comes back with non-nil empty
+	// slices/maps (reflect.DeepEqual tells nil from empty; so does every marshaller: null vs [])
+	empties := []interface{}{
+		[]interface{}{},
+		[]interface{}{[]interface{}{}},
+		[]interface{}{map[string]interface{}{}, []interface{}{}, 1},
+		[]interface{}{[]interface{}{[]interface{}{}}},
+		map[string]interface{}{},
+		map[string]interface{}{"l": []interface{}{}, "o": map[string]interface{}{}},
+		map[string]interface{}{"a": map[string]interface{}{"l": []interface{}{}}, "b": []interface{}{map[string]interface{}{}}},
+	}
+	for i, in := range empties {
+		c.Eval(1)
+		c.Nontrivial(fmt.Sprintf("empties/%d", i))
+		var out, built interface{}
+		pn, pv := try(func() {
+			if m, ok := in.(map[string]interface{}); ok {
+				out = at.NewObjectFrom(m).NativeDict()
+				o := at.NewObject()
+				for k, v := range m {
+					o.Set(k, v)
+				}
+				built = o.NativeDict()
+			} else {
+				out = at.NewListFrom(in).NativeSlice()
+				built = at.NewList(in.([]interface{})...).NativeSlice()
+			}
+		})
+		if pn || !reflect.DeepEqual(out, in) || !reflect.DeepEqual(built, in) {
+			c.Violate(ev.Violation{Sig: "native/empty-not-deep-equal", Msg: fmt.Sprintf("input %#v: native export is %#v / %#v (panic=%v %v): not deep-equal (nil where the input has an empty slice/map?)", in, out, built, pn, pv), Witness: fmt.Sprintf("%#v", in)}, nil)
+		}
+	}
+	// one-level snapshots are never nil either
+	if at.NewList().Slice() == nil || at.NewObject().Dict() == nil || at.NewList().NativeSlice() == nil || at.NewObject().NativeDict() == nil {
+		c.Violate(ev.Violation{Sig: "native/empty-not-deep-equal", Msg: "Slice()/Dict()/NativeSlice()/NativeDict() of an empty container is nil", Witness: "empty"}, nil)
+	}
 }
 
 func runC13(c *ev.Ctx) {
@@ -505,7 +541,7 @@ func runC13(c *ev.Ctx) {
 	}
 	en := spec.NewEnum([]*spec.V{spec.NilV, spec.B(true), spec.I(1), spec.F(1.5), spec.S("s")}, []string{"", "a", "b"})
 	mods := c13AllMods()
-	c.Rule(fmt.Sprintf("native trees = every map[string]any / []any tree with <= %d nodes, depth <= 3 over scalars {nil,true,1,1.5,\"s\"} and keys {\"\",a,b}, empty maps/slices at every position included, plus %s. Fidelity: container built from the native value matches it, Native* export contains no container at any depth and is deep-equal to the source (nil/empty identified), also for the same content built by Add/Set; Dict()/Slice() hold exactly what Get returns. Aliasing (explicit-state search): every modification sequence of length 1 on all trees and of length 2 on trees with <= %d nodes out of %d modifications (assign / delete / overwrite / append-into-spare-capacity at every node of the source value, of the Native* export and of the Dict/Slice export; %d container mutations incl. nested SetTF and mutation of a nested container through an exported handle): after every step every other party keeps its previous rendering. states = distinct final snapshots, transitions = modification steps executed on the implementation.", nodes1, "all 12 typed map/slice flavours with 0..2 entries at the root and nested", nodes2, len(mods), len(c13ContMods)))
+	c.Rule(fmt.Sprintf("native trees = every map[string]any / []any tree with <= %d nodes, depth <= 3 over scalars {nil,true,1,1.5,\"s\"} and keys {\"\",a,b}, empty maps/slices at every position included, plus %s. Fidelity: container built from the native value matches it, Native* export contains no container at any depth and is deep-equal to the source (for sources whose empty slices/maps are non-nil the export is compared with reflect.DeepEqual, which tells nil from empty; nil inputs are not judged on that point), also for the same content built by Add/Set; Dict()/Slice() hold exactly what Get returns. Aliasing (explicit-state search): every modification sequence of length 1 on all trees and of length 2 on trees with <= %d nodes out of %d modifications (assign / delete / overwrite / append-into-spare-capacity at every node of the source value, of the Native* export and of the Dict/Slice export; %d container mutations incl. nested SetTF and mutation of a nested container through an exported handle): after every step every other party keeps its previous rendering. states = distinct final snapshots, transitions = modification steps executed on the implementation.", nodes1, "all 12 typed map/slice flavours with 0..2 entries at the root and nested", nodes2, len(mods), len(c13ContMods)))
 	c.Assume("a nested container handle held by Dict()/Slice() is the container's own element: changes through it are visible on both sides by design")
 	c13Flavours(c)
 	stop := func() bool { return c.Expired() || c.TooMany() }
